@@ -178,7 +178,8 @@ def gen_unit(rng):
         lines = ["CONFIGURATION Cf%d" % ci]
         if rng.random() < 0.7:
             q = rng.choice(["", " CONSTANT", " CONSTANT"])
-            lines += ["  VAR_GLOBAL%s" % q] + ["    %s : INT := 7;" % _case(rng, v) for v in rng.sample(POOL, rng.randint(1, 2))] + ["  END_VAR"]
+            lines += ["  VAR_GLOBAL%s" % q] + ["    %s : INT%s;" % (_case(rng, v), " := 7" if rng.random() < 0.7 else "")
+                                                for v in rng.sample(POOL, rng.randint(1, 2))] + ["  END_VAR"]
         for ri in range(rng.choice([1, 1, 2])):
             tasks = rng.sample(POOL[:4], rng.randint(0, 2))
             lines += ["  RESOURCE Rs%d_%d ON PLC" % (ci, ri)]
